@@ -366,4 +366,122 @@ theorem toDays_injective (a b : Civil) (ha : a.Valid) (hb : b.Valid) (h : a.toDa
 theorem civil_unique (z : Int) (c : Civil) (hc : c.Valid) (h : c.toDays = z) : c = civilFromDays z := by
   rw [← h, civil_roundtrip_inv c hc]
 
+/-! ### order -/
+
+
+/-- Calendar order on dates. -/
+def Civil.lt (a b : Civil) : Prop :=
+  a.year < b.year ∨ (a.year = b.year ∧ (a.month < b.month ∨ (a.month = b.month ∧ a.day < b.day)))
+
+/-- Days from 1 January to the first of month `m` in year `y`. -/
+def daysBeforeCivilMonth (y m : Int) : Int :=
+  if m ≤ 1 then 0 else if m = 2 then 31 else 59 + (if isLeap y then 1 else 0) + daysBeforeMonth (m - 3)
+
+theorem daysFromCivil_jan1 (y m d : Int) (h1 : 1 ≤ m) (h12 : m ≤ 12) :
+    daysFromCivil y m d = daysFromCivil y 1 1 + daysBeforeCivilMonth y m + (d - 1) := by
+  have hs := daysBeforeYear_step y
+  unfold daysFromCivil daysBeforeCivilMonth marchYear marchMonth daysBeforeMonth at *
+  by_cases hl : isLeap y = true <;> simp only [hl, if_true, if_false, Bool.false_eq_true] at hs ⊢ <;>
+    (by_cases hm1 : m ≤ 1
+     · have : m = 1 := by omega
+       subst this; simp; omega
+     · by_cases hm2 : m = 2
+       · subst hm2; simp; omega
+       · have h3 : ¬ m ≤ 2 := by omega
+         simp only [hm1, hm2, h3, if_false]; simp; omega)
+
+/-- day of year stays inside the year -/
+theorem dayOfYear_bounds (c : Civil) (hv : c.Valid) :
+    0 ≤ daysBeforeCivilMonth c.year c.month + (c.day - 1) ∧
+    daysBeforeCivilMonth c.year c.month + (c.day - 1) < 365 + (if isLeap c.year then 1 else 0) := by
+  obtain ⟨h1, h12, hd1, hd⟩ := hv
+  unfold daysBeforeCivilMonth daysBeforeMonth
+  unfold daysInMonth at hd
+  by_cases hl : isLeap c.year = true <;> simp only [hl, if_true, if_false, Bool.false_eq_true] at hd ⊢ <;>
+    (have : c.month = 1 ∨ c.month = 2 ∨ c.month = 3 ∨ c.month = 4 ∨ c.month = 5 ∨ c.month = 6 ∨ c.month = 7 ∨
+        c.month = 8 ∨ c.month = 9 ∨ c.month = 10 ∨ c.month = 11 ∨ c.month = 12 := by omega
+     rcases this with h | h | h | h | h | h | h | h | h | h | h | h <;> rw [h] at hd ⊢ <;> simp at hd ⊢ <;> omega)
+
+/-- within a year, (month, day) order is day-of-year order -/
+theorem dayOfYear_lt (y : Int) (m1 d1 m2 d2 : Int) (h1 : (⟨y, m1, d1⟩ : Civil).Valid) (h2 : (⟨y, m2, d2⟩ : Civil).Valid)
+    (hlt : m1 < m2) :
+    daysBeforeCivilMonth y m1 + (d1 - 1) < daysBeforeCivilMonth y m2 + (d2 - 1) := by
+  obtain ⟨a1, a12, ad1, ad⟩ := h1
+  obtain ⟨b1, b12, bd1, _⟩ := h2
+  simp only at a1 a12 ad1 ad b1 b12 bd1
+  unfold daysInMonth at ad
+  unfold daysBeforeCivilMonth daysBeforeMonth
+  by_cases hl : isLeap y = true <;> simp only [hl, if_true, if_false, Bool.false_eq_true] at ad ⊢ <;>
+    (have : m1 = 1 ∨ m1 = 2 ∨ m1 = 3 ∨ m1 = 4 ∨ m1 = 5 ∨ m1 = 6 ∨ m1 = 7 ∨
+        m1 = 8 ∨ m1 = 9 ∨ m1 = 10 ∨ m1 = 11 := by omega
+     rcases this with h | h | h | h | h | h | h | h | h | h | h <;> subst h <;> simp at ad ⊢ <;> omega)
+
+theorem daysBeforeYear_mono (a b : Int) (h : a ≤ b) : daysBeforeYear a ≤ daysBeforeYear b := by
+  unfold daysBeforeYear
+  omega
+
+theorem jan1_next (y : Int) :
+    daysFromCivil (y + 1) 1 1 = daysFromCivil y 1 1 + 365 + (if isLeap y then 1 else 0) := by
+  have hs := daysBeforeYear_step y
+  unfold daysFromCivil marchYear marchMonth at *
+  simp
+  by_cases hl : isLeap y = true <;> simp [hl] at hs ⊢ <;> omega
+
+theorem jan1_mono (a b : Int) (h : a ≤ b) : daysFromCivil a 1 1 ≤ daysFromCivil b 1 1 := by
+  have := daysBeforeYear_mono (a - 1) (b - 1) (by omega)
+  unfold daysFromCivil marchYear marchMonth
+  simp; omega
+
+/-- Later in the calendar means a larger day number. -/
+theorem toDays_strictMono (a b : Civil) (ha : a.Valid) (hb : b.Valid) (h : a.lt b) : a.toDays < b.toDays := by
+  have ea := daysFromCivil_jan1 a.year a.month a.day ha.1 ha.2.1
+  have eb := daysFromCivil_jan1 b.year b.month b.day hb.1 hb.2.1
+  have ba := dayOfYear_bounds a ha
+  have bb := dayOfYear_bounds b hb
+  unfold Civil.toDays
+  rw [ea, eb]
+  rcases h with hy | ⟨hy, hm | ⟨hm, hd⟩⟩
+  · have h1 := jan1_next a.year
+    have h2 := jan1_mono (a.year + 1) b.year (by omega)
+    omega
+  · have := dayOfYear_lt a.year a.month a.day b.month b.day ha (by rw [hy]; exact hb) hm
+    rw [← hy]; omega
+  · rw [← hy, ← hm]; omega
+
+theorem Civil.lt_trichotomy (a b : Civil) : a.lt b ∨ a = b ∨ b.lt a := by
+  unfold Civil.lt
+  by_cases h1 : a.year < b.year
+  · exact Or.inl (Or.inl h1)
+  · by_cases h2 : b.year < a.year
+    · exact Or.inr (Or.inr (Or.inl h2))
+    · have hy : a.year = b.year := by omega
+      by_cases h3 : a.month < b.month
+      · exact Or.inl (Or.inr ⟨hy, Or.inl h3⟩)
+      · by_cases h4 : b.month < a.month
+        · exact Or.inr (Or.inr (Or.inr ⟨hy.symm, Or.inl h4⟩))
+        · have hm : a.month = b.month := by omega
+          by_cases h5 : a.day < b.day
+          · exact Or.inl (Or.inr ⟨hy, Or.inr ⟨hm, h5⟩⟩)
+          · by_cases h6 : b.day < a.day
+            · exact Or.inr (Or.inr (Or.inr ⟨hy.symm, Or.inr ⟨hm.symm, h6⟩⟩))
+            · have hd : a.day = b.day := by omega
+              refine Or.inr (Or.inl ?_)
+              cases a; cases b; simp_all
+
+/-- Day numbers order dates exactly as the calendar does. -/
+theorem toDays_lt_iff (a b : Civil) (ha : a.Valid) (hb : b.Valid) : a.toDays < b.toDays ↔ a.lt b := by
+  constructor
+  · intro h
+    rcases Civil.lt_trichotomy a b with h1 | h1 | h1
+    · exact h1
+    · subst h1; omega
+    · have := toDays_strictMono b a hb ha h1; omega
+  · exact toDays_strictMono a b ha hb
+
+/-- `civilFromDays` is strictly monotone. -/
+theorem civilFromDays_strictMono (z1 z2 : Int) (h : z1 < z2) : (civilFromDays z1).lt (civilFromDays z2) := by
+  rw [← toDays_lt_iff _ _ (civil_valid z1) (civil_valid z2), civil_roundtrip, civil_roundtrip]
+  exact h
+
+
 end AM.Calendar
